@@ -259,7 +259,12 @@ func (im *impl) execEnc(h *vh.H, op string, nodes []*node) string {
 	if err != nil {
 		return "bad-op"
 	}
+	if mt := metaOf(nodes); mt != nil && len(mt.args()) > 0 && mt.args()[0].atom == "emptybytes" {
+		emptyBytesNonNil = true
+		h.Count("enc.any-empty-nonnil-bytes")
+	}
 	m, err := parseMsg(ts, md, nodes[4])
+	emptyBytesNonNil = false
 	if err != nil {
 		return "bad-op"
 	}
